@@ -156,9 +156,15 @@ def replay(rp):
     if rp.get("replay_op") == "bc-tree":
         return L.replay_tree(rp)
     if rp.get("replay_op") == "bc-sync":
-        print("history with synchronous connect outcomes", rp.get("sync_outcomes"))
-        print("implementation trace at the time:", rp.get("impl"))
-        print("model trace at the time         :", rp.get("model"))
-        return 1
+        events = D.unjson(rp["events"])
+        im = L.SyncImpl(rp.get("policy", "const"), None, None, list(rp.get("sync_outcomes", [])))
+        for ev in events:
+            im.apply(ev)
+        print(rp.get("kind"), "|", rp.get("message", ""))
+        for (ev, c, outs, en), u in zip(im.records, im.sync_used):
+            print("  %-30r connect() completes synchronously: %-5r connected=%d %r" % (ev, u, c, outs))
+        cm = L.closed_monitor(im.records, im.transport() is not None)
+        print("monitor verdict now:", cm)
+        return 1 if cm else 0
     print(rp)
     return 1
